@@ -47,6 +47,20 @@ def _sim(a, b):
     return len(A & B) / float(len(A | B))
 
 
+def _called_by_old_callers(prog, rec, old, new):
+    from facts import callee
+    o = re.sub(r"::<.*?>", "", old); n = re.sub(r"::<.*?>", "", new)
+    callers = {f for f, v in rec.items() if o in v.get("callees", ())}
+    for fn, b in prog.bodies.items():
+        base = re.sub(r"(::\{closure#\d+\})+$", "", fn)
+        if base in callers:
+            for bb in b.bbs:
+                t = bb["t"]
+                if t["k"] == "call" and re.sub(r"::<.*?>", "", callee(t) or "") == n:
+                    return True
+    return False
+
+
 def normalise(prog):
     """returns list of (recorded_name, actual_name, similarity) aliases applied to prog"""
     try:
@@ -76,9 +90,16 @@ def normalise(prog):
             s_ = _sim(sig["callees"], signature(b)["callees"])
             cands.append((s_, new))
         cands.sort(reverse=True)
-        if not cands or cands[0][0] < 0.5:
+        if not cands:
             continue
-        if len(cands) > 1 and cands[0][0] - cands[1][0] < 0.15:
+        if cands[0][0] < 0.5:
+            # rewritten body under a new name: accepted on other evidence -- it is the only new
+            # function of the scope with exactly these types, no other missing function has
+            # them, and a function that used to call the old name now calls the new one
+            same_sig_missing = [o for o in missing if o != old and scope_of(o) == scope_of(old) and rec[o]["args"] == sig["args"] and rec[o]["ret"] == sig["ret"]]
+            if len(cands) != 1 or same_sig_missing or not _called_by_old_callers(prog, rec, old, cands[0][1]):
+                continue
+        elif len(cands) > 1 and cands[0][0] - cands[1][0] < 0.15:
             continue
         aliases.append((old, cands[0][1], round(cands[0][0], 2)))
         used.add(cands[0][1])
